@@ -115,6 +115,7 @@ func c11(r *core.Run) {
 	r.Rule("K1", "lock pairing: Read acquires shared and returns the read txn, Write acquires exclusive and returns the write txn; each txn type declares its own Close releasing the same mode on the txn's id, once (guarded by the closed flag)", 8)
 	r.Rule("K2", "cache coherence: a value cached in the transaction object is either never persistently written (all writers have value receivers) or every mutation method refreshes it; otherwise reads inside a write transaction would not see its own writes", 1)
 	r.Rule("E1", "sentinels: Create can return store.ErrDuplicate on the exists edge; Update/Delete/Value can return the not-found sentinel; no method returns the raw badger.ErrKeyNotFound", 8)
+	r.Rule("E3", "existence is read, not assumed (badgerstore): in the transaction bodies of Update and Delete every database write is preceded on all paths by a read of the key (a call reaching Txn.Get) or by the edge on which the transaction's cached value is non-nil; the database itself accepts writes and deletes of missing keys", 2)
 	r.Rule("E2", "empty id: Create tests the transaction id against \"\" before any write and on that edge returns an error or installs a generated id", 2)
 	r.Rule("C1", "change callbacks: on every nil return of Create/Update/Delete exactly one change fan-out ran, after the mutation succeeded (err==nil edge), with (txn id, before value read in the same transaction or nil, new value or nil); on every non-nil return none ran", 12)
 	r.Rule("C2", "veto and type: the dynamic type check dominates the database transaction; the before-change fan-out runs inside the update closure before the write and its error aborts the closure", 5)
@@ -314,6 +315,71 @@ func c11(r *core.Run) {
 		}
 	}
 
+	// ---- E3 (badgerstore) ----------------------------------------------------
+	// BadgerDB's Delete / Set succeed on a missing key: the not-found answer of Update / Delete comes
+	// from the read that precedes the write. Typestate in the transaction body: "existence known"
+	// is reached by a call that reads the key (may reach Txn.Get) or on the edge where the
+	// transaction's cached value is non-nil; every write needs it on all paths.
+	{
+		rel := "store/badgerstore"
+		mayGet := mayExec(p.FuncsOfPkg(rel), func(in ssa.Instruction) bool {
+			c, ok := in.(ssa.CallInstruction)
+			return ok && isBadgerCall(c, "Txn", "Get")
+		})
+		for _, n := range []string{"Update", "Delete"} {
+			m := methodNamed(p, rel, "writeTxn", n)
+			if m == nil {
+				continue
+			}
+			for _, body := range txnBodies(m) {
+				var writes []ssa.CallInstruction
+				for _, c := range helperCalls(p, body) {
+					if isTxnWrite(c) {
+						writes = append(writes, c)
+					}
+				}
+				if len(writes) == 0 {
+					continue
+				}
+				fl := &core.Flow{Fn: body, Entry: core.StateSet(0).Add(0), Inline: func(cal *ssa.Function) bool {
+					return cal.Pkg == body.Pkg && p.IsPrivateHelper(cal) && !mayGet[cal]
+				}}
+				fl.Transfer = func(in ssa.Instruction, st int) core.StateSet {
+					if c, ok := in.(*ssa.Call); ok {
+						if isBadgerCall(c, "Txn", "Get") {
+							return core.StateSet(0).Add(1)
+						}
+						if cal := c.Common().StaticCallee(); cal != nil && mayGet[cal] {
+							return core.StateSet(0).Add(1)
+						}
+					}
+					return core.StateSet(0).Add(st)
+				}
+				fl.BranchOn = func(cond ssa.Value, succ int, st int) (int, bool) {
+					ci := core.Cond(cond)
+					if ci.Kind == "nilcmp" && ci.HasFld && strings.HasSuffix(ci.Field.Struct, "readTxn") {
+						if _, isIface := ci.X.Type().Underlying().(*types.Interface); isIface {
+							truth := succ == 0
+							if ci.Negate {
+								truth = !truth
+							}
+							if (ci.Op == token.NEQ) == truth {
+								return 1, true // the cached value is non-nil: the id holds a value
+							}
+						}
+					}
+					return st, true
+				}
+				fl.Branch = func(iff *ssa.If, succ int, st int) (int, bool) { return fl.BranchOn(iff.Cond, succ, st) }
+				res := fl.Run()
+				for _, w := range writes {
+					st := res.Before[w]
+					r.Check(!st.Empty() && st.Only(1), "E3", core.FuncName(body), "existence-known-before:"+w.Common().StaticCallee().Name(), p.InstrPos(w), "every path to the write read the key (or holds the cached value)", "a path reaches the database write without having read the key: BadgerDB's Set / Delete succeed on a missing key, so "+n+" on an id that holds no value reports success instead of the not-found error")
+				}
+			}
+		}
+	}
+
 	// ---- C2 (badgerstore) ----------------------------------------------------
 	for _, n := range []string{"Create", "Update", "Delete"} {
 		m := methodNamed(p, "store/badgerstore", "writeTxn", n)
@@ -458,7 +524,20 @@ func c11Callbacks(r *core.Run, rel, name string, m *ssa.Function, idF core.Field
 		}
 		if u, ok := in.(*ssa.UnOp); ok && core.Outermost(u.Parent()) == m {
 			if f, ok := core.LoadedField(u); ok && f == lf && lf.Name != "" {
-				return true
+				// reading only the number of listeners calls nobody
+				onlyLen := u.Referrers() != nil && len(*u.Referrers()) > 0
+				if u.Referrers() != nil {
+					for _, rf := range *u.Referrers() {
+						if _, isDbg := rf.(*ssa.DebugRef); isDbg {
+							continue
+						}
+						c, ok := rf.(*ssa.Call)
+						if !ok || core.CalleeName(c) != "builtin:len" {
+							onlyLen = false
+						}
+					}
+				}
+				return !onlyLen
 			}
 		}
 		return false
@@ -492,14 +571,14 @@ func c11Callbacks(r *core.Run, rel, name string, m *ssa.Function, idF core.Field
 		for _, ed := range dominatingEdges(ret) {
 			conds = append(conds, describeCond(ed))
 		}
-		isNil := false
-		if c, ok := ret.Results[0].(*ssa.Const); ok && c.IsNil() {
-			isNil = true
+		// the error returned may be a variable that is nil on some paths and set on others (single
+		// exit): the engine reports the states per nil-ness of the returned value
+		stNil, stErr := res.RetFlag[ret][2], res.RetFlag[ret][1]|res.RetFlag[ret][0]
+		if !stNil.Empty() {
+			r.Check(stNil.Only(1), "C1", core.FuncName(m), "nil-return=>exactly-one-fanout:"+returnDesc(ret, conds), p.InstrPos(ret), "exactly one change fan-out on every path to this success return", fmt.Sprintf("success return with %v change fan-outs on some path", stNil.List()))
 		}
-		if isNil {
-			r.Check(st.Only(1), "C1", core.FuncName(m), "nil-return=>exactly-one-fanout:"+returnDesc(ret, conds), p.InstrPos(ret), "exactly one change fan-out on every path to this success return", fmt.Sprintf("success return with %v change fan-outs on some path", st.List()))
-		} else {
-			r.Check(st.Only(0), "C1", core.FuncName(m), "error-return=>no-fanout:"+returnDesc(ret, conds), p.InstrPos(ret), "no change fan-out on any path to this error return", fmt.Sprintf("error return after %v change fan-outs", st.List()))
+		if !stErr.Empty() {
+			r.Check(stErr.Only(0), "C1", core.FuncName(m), "error-return=>no-fanout:"+returnDesc(ret, conds), p.InstrPos(ret), "no change fan-out on any path to this error return", fmt.Sprintf("error return after %v change fan-outs", stErr.List()))
 		}
 	}
 	// fan-out call: dominated by an err==nil edge; arguments
@@ -510,7 +589,35 @@ func c11Callbacks(r *core.Run, rel, name string, m *ssa.Function, idF core.Field
 	var fsites []fanSite
 	for _, c := range core.Calls(m) {
 		if isFanout(c) {
-			fsites = append(fsites, fanSite{c, c.Common().Args[1:]})
+			// the listeners' arguments as the fan-out function passes them, expressed in the caller's values
+			args := c.Common().Args[1:]
+			if cal := c.Common().StaticCallee(); cal != nil {
+				rs := core.NewResolver()
+				rs.Bind(c)
+				for _, hc := range core.Calls(cal) {
+					if !core.IsDynamic(hc) || len(hc.Common().Args) != 3 {
+						continue
+					}
+					isListener := false
+					switch v := hc.Common().Value.(type) {
+					case *ssa.UnOp:
+						if ia, ok := v.X.(*ssa.IndexAddr); ok {
+							if f, ok := core.LoadedField(ia.X); ok && f == lf && lf.Name != "" {
+								isListener = true
+							}
+						}
+					case *ssa.Extract: // range over the slice value
+						isListener = true
+					}
+					if isListener {
+						args = nil
+						for _, a := range hc.Common().Args {
+							args = append(args, rs.R(a))
+						}
+					}
+				}
+			}
+			fsites = append(fsites, fanSite{c, args})
 			continue
 		}
 		// written-out loop: the dynamic call of an element of the listener slice
